@@ -32,6 +32,11 @@ def endpoint_options(rng, n):
         pass
     elif u < 0.4:
         ek["endpoints_not_equal"] = True
+    elif u < 0.46:
+        # an EMPTY allowed set: nothing is admissible, the documented ValueError is the only correct outcome
+        ek["allowed_start" if rng.random() < 0.5 else "allowed_end"] = []
+        if rng.random() < 0.3:
+            ek["endpoints_not_equal"] = True
     else:
         if rng.random() < 0.45:
             k = int(rng.integers(1, 4))
